@@ -574,6 +574,9 @@ def run(ctx):
     # (same rule instance as C04/thread-list-mutators)
     from rules import c04
     c04.rule_thread_list_mutators(ctx, R="C03/thread-list-mutators")
+    # shared infrastructure this property leans on (rules/families.py): each member is the same rule instance as in its home property
+    from rules import families as _fam
+    _fam.thread_list(ctx, "C03")
 
 
 def thorough(ctx):
